@@ -95,6 +95,7 @@ type LoadOpts struct {
 	GOARCH   string
 	Tests    bool
 	MinPkgs  int
+	Overlay  map[string][]byte
 }
 
 func Load(o LoadOpts) (*Program, error) {
@@ -115,6 +116,9 @@ func Load(o LoadOpts) (*Program, error) {
 		Dir:   o.Dir,
 		Env:   env,
 		Tests: o.Tests,
+	}
+	if len(o.Overlay) > 0 {
+		cfg.Overlay = o.Overlay
 	}
 	if o.Tags != "" {
 		cfg.BuildFlags = []string{"-tags", o.Tags}
